@@ -82,8 +82,15 @@ def no_leak_crossval(ctx, obs, rule='NI'):
             obs.check(src is not None and depends_on_param(src, want), 'FWD', q,
                       f'fitter receives {kw} from {want}', f'`{norm(c.node)[:100]}` does not pass {kw} from `{want}`', '',
                       where(prog, f, c.node))
-    # score depends on the training set only through theta
-    r2 = dep.analyze(q, data_only=True, cut={'theta'})
+    # score depends on the training set only through the fitted parameters (the variable the fitter result is bound to)
+    theta_names = set()
+    for st in ast.walk(f.node):
+        if isinstance(st, ast.Assign) and isinstance(st.targets[0], ast.Name) and any(st.value is c.node for c in fit_calls):
+            theta_names.add(st.targets[0].id)
+    if not theta_names:
+        obs.unk(rule, q, 'fitted parameters are bound to a variable', 'fitter result is not assigned to a plain name')
+        return
+    r2 = dep.analyze(q, data_only=True, cut=theta_names)
     cmp_calls = [c for c in r2.calls if any(x.endswith('rdm.compare.compare') for x in c.callees)]
     if not cmp_calls:
         from ..model import AnalysisError
@@ -95,7 +102,7 @@ def no_leak_crossval(ctx, obs, rule='NI'):
                   f'`{norm(c.node)[:100]}`: an argument derives from train_set by a path that avoids theta', '',
                   where(prog, f, c.node))
         a0, a1 = c.arg(0) or frozenset(), c.arg(1) or frozenset()
-        obs.check('CUT:theta' in a0, 'ND', q, 'the prediction compared is the one at the fitted theta',
+        obs.check(any(('CUT:' + t) in a0 for t in theta_names), 'ND', q, 'the prediction compared is the one at the fitted theta',
                   'first argument of compare does not derive from theta', '', where(prog, f, c.node))
         obs.check(depends_on_param(a1, 'test_set') and not depends_on_param(a1, 'train_set'), 'ND', q,
                   'the data compared are the test RDMs of the fold', 'second argument of compare is not the test fold',
@@ -348,23 +355,29 @@ def concat_both_sides(ctx, obs, q, rule='GROUP'):
     f = prog.func(q)
     r = ctx.dep.result(q)
     cs = [c for c in r.calls if any(x.endswith('_concat_sampling') for x in c.callees)]
+    # the (train, test, ceil) triple produced by the fold generator
+    names = None
+    for st in ast.walk(f.node):
+        if isinstance(st, ast.Assign) and isinstance(st.targets[0], ast.Tuple) and len(st.targets[0].elts) == 3 \
+                and isinstance(st.value, ast.Call) and getattr(st.value.func, 'id', getattr(st.value.func, 'attr', '')).startswith('sets_') \
+                and all(isinstance(t, ast.Name) for t in st.targets[0].elts):
+            names = [t.id for t in st.targets[0].elts]
+    if names is None:
+        obs.unk(rule, q, 'fold triple (train, test, ceil)', 'no `a, b, c = sets_*(...)` unpacking found')
+        return
     sides = set()
     for c in cs:
-        a1 = c.node.args[1] if len(c.node.args) > 1 else None
         a0 = c.arg(0) or frozenset()
         obs.check(depends_on_param(a0, 'pattern_idx') or any('bootstrap_sample' in t for t in a0), rule, q,
                   f'_concat_sampling #{c.ordinal} expands by the bootstrap pattern sample',
                   f'`{norm(c.node)}` first argument is not the bootstrap pattern index', '', where(prog, f, c.node))
-        if a1 is not None:
-            s = expr_sources(r, a1)
-            # which set does the element come from
-            for side in ('train_set', 'test_set'):
-                pass
-        # find the enclosing for loop's iterable name
         for n in ast.walk(f.node):
             if isinstance(n, ast.For) and any(x is c.node for x in ast.walk(n)) and isinstance(n.iter, ast.Name):
-                sides.add(n.iter.id)
-    obs.check({'train_set', 'test_set'} <= sides, rule, q,
+                if n.iter.id == names[0]:
+                    sides.add('train')
+                elif n.iter.id == names[1]:
+                    sides.add('test')
+    obs.check({'train', 'test'} <= sides, rule, q,
               'bootstrap multiplicities are expanded for both the training and the test pattern lists',
-              f'_concat_sampling is applied to {sorted(sides)} only: train and test sides would disagree on multiplicity',
+              f'_concat_sampling is applied to the {sorted(sides)} side only: train and test sides would disagree on multiplicity',
               '', where(prog, f, f.node))
